@@ -24,11 +24,13 @@ ASSUMPTIONS = ['cells mixing lower-case and upper-case calls, identifiers ending
 SUSPICIOUS = ['eval(1)', 'os.system("x")', 'foo()', 'a(b)c(d)', 'print(1)', '__import__("os")', 'Exec(x)', 'open(f).read()', 'x1(2)', 'lambda_(3)',
               'exec(compile(s))', 'getattr(o,n)',
               # lower-case calls that are spelled like Excel functions, and calls next to quoted text
-              'max(1,2)', 'sum(a)', 'round(2.5,0)', 'if(x)', 'say "eval(1)" twice', '"a" exec(b) "c"', 'today()']
+              'max(1,2)', 'sum(a)', 'round(2.5,0)', 'if(x)', 'say "eval(1)" twice', '"a" exec(b) "c"', 'today()',
+              # characters that mean something in a format string
+              'eval(50%)', 'print("%s" % x)', 'fmt(%d)', 'pct(100%%)', 'f({0})', 'g({x})', 'h(%(a)s)']
 INNOCENT_TEXT = ['SUM(1)', '(hello)', 'print (1)', 'a (b)', 'no call here', '( )', 'IF(A1,1,2)', 'x - (y)', '100%', 'f( is open', 'MAX(MIN(1,2),3)']
 INNOCENT_FORMULA = ['=SUM(1,2)', '=IF(1>0,1,2)', '=MAX(1,2)+MIN(3,4)', '=1+2', '=ROUND(2.5,0)', '="(text)"']
 SUSPICIOUS_FORMULA = ['=foo(1)', '=eval(2)+1', '=1+os.getcwd()', '=a(b)', '=A1+max(A1,A2)', '=sum(1,2)*2', '=A1-round(2.5,0)', '=A1&"eval(1)"', '="a"&exec(A1)&"b"',
-                      '=A1&"x"&os.system(A2)&"y"', '="x"&"y"&len(A1)']
+                      '=A1&"x"&os.system(A2)&"y"', '="x"&"y"&len(A1)', '=eval(50%)', '=1+foo(A1%)']
 
 
 def fragments_of(text):
@@ -187,7 +189,7 @@ def run_case(spec):
 
 def strategy():
     from hypothesis import strategies as st
-    titles = st.sampled_from(['S', 'Data', 'My Sheet', 'Лист 1', 'a-b', 'B2', 'x.y', "Bob's data", "it's"])
+    titles = st.sampled_from(['S', 'Data', 'My Sheet', 'Лист 1', 'a-b', 'B2', 'x.y', "Bob's data", "it's", 'a%b', '100%', '%s', '{0}'])
 
     @st.composite
     def spec(draw):
@@ -205,7 +207,11 @@ def strategy():
                     continue
                 if kind == 'suspicious':
                     v = draw(st.one_of(st.sampled_from(SUSPICIOUS), st.sampled_from(SUSPICIOUS).map(lambda s: 'note: ' + s + ' end'),
-                                       st.sampled_from(SUSPICIOUS_FORMULA), st.tuples(st.sampled_from(SUSPICIOUS), st.sampled_from(SUSPICIOUS)).map(lambda t: t[0] + ' ' + t[1])))
+                                       st.sampled_from(SUSPICIOUS_FORMULA), st.tuples(st.sampled_from(SUSPICIOUS), st.sampled_from(SUSPICIOUS)).map(lambda t: t[0] + ' ' + t[1]),
+                                       # a long text constant: the call sits far behind the beginning (a cell holds up to 32767 characters)
+                                       st.tuples(st.sampled_from(SUSPICIOUS), st.sampled_from([8200, 9000, 16400, 30000])).map(lambda t: 'lorem ipsum ' * (t[1] // 12) + t[0]),
+                                       st.tuples(st.sampled_from(SUSPICIOUS), st.sampled_from(SUSPICIOUS), st.sampled_from([8200, 12000])).map(
+                                           lambda t: t[0] + ' ' + 'dolor sit ' * (t[2] // 10) + t[1])))
                 else:
                     v = draw(st.one_of(st.sampled_from(INNOCENT_TEXT), st.sampled_from(INNOCENT_FORMULA), st.integers(-5, 5000),
                                        st.just({'$dt': '2024-02-29T00:00:00'}), st.sampled_from([1.5, True])))
